@@ -83,6 +83,17 @@ for _m in ("exactsolve", "custom_exactsolve", "cg"):
 VARIANTS.append(("solve", "exactsolve", "mfree", "singE"))
 for _m in ("exacteig", "custom_exacteig", "davidson"):
     VARIANTS.append(("symeig", _m, "dense", "diag"))
+#   tsgrad  : solve_ivp with a time grid that requires grad (the time gradients are accumulated in the backward)
+for _m in ("rk4", "rk45", "euler"):
+    for _k in ("pure", "edmod"):
+        VARIANTS.append(("solve_ivp", _m, _k, "tsgrad"))
+#   vary    : the values of all leaves (incl. tensor limits) change in place before every event, so that a cache
+#             keyed by argument VALUES grows with every call (a warm-up with equal values would hide it)
+VARY_FIRST = {"solve": "cg", "symeig": "davidson", "svd": "davidson", "rootfinder": "broyden1", "equilibrium": "anderson_acc",
+              "minimize": "gd", "solve_ivp": "rk4", "quad": "leggauss", "mcquad": "_dummy1d", "jac": "jac_mv"}
+for _fn, _m in VARY_FIRST.items():
+    VARIANTS.append((_fn, _m, {"solve": "mfree", "symeig": "dense", "svd": "dense"}.get(_fn, "pure"), "vary"))
+VARIANTS.append(("quad", "leggauss", "edmod", "vary"))
 
 
 def cases(tier, seed):
@@ -140,6 +151,9 @@ def _opts(fn, m):
     return S.opts_of(fn, m)
 
 
+_VARY = [0]
+
+
 class World:
     """fresh problem instance + the cotangents of the second-order event (all harness tensors live here)"""
 
@@ -161,6 +175,13 @@ class World:
             sc = self.sc
             sc.a = torch.diag(torch.tensor([1.0, 2.0, 3.5, 5.0], dtype=sc.a.dtype)).requires_grad_()
             sc.leaves = [sc.a]
+        elif var == "tsgrad":
+            sc = self.sc
+            sc.ts = sc.ts.detach().clone().requires_grad_()
+            sc.leaves = list(sc.leaves) + [sc.ts]
+        self.vary = var == "vary"
+        # (harness tensors are created here, before the baseline census)
+        self.base = [l.detach().clone() for l in self.sc.leaves] if self.vary else None
         if fn == "mcquad":
             self.fwd = self.sc.fix(m, self.fwd)
         g = gen(19)
@@ -169,6 +190,12 @@ class World:
     def run(self, ev):
         """executes one event; every library result dies when this frame returns"""
         sc = self.sc
+        if self.vary:
+            # values never seen before in this process (also not in the warm-up or in an earlier history)
+            _VARY[0] += 1
+            with torch.no_grad():
+                for l, b in zip(sc.leaves, self.base):
+                    l.copy_(b * (1.0 + 2.0 ** -13 * _VARY[0]))
         outs = sc.call(self.m, dict(self.fwd), {})
         if ev == "F":
             return
